@@ -5,6 +5,7 @@ MC_NameAddr_*.cfg files, and prints an estimate of the number of wires per confi
 Usage: python3 gen_mc_nameaddr.py [delta]     delta is subtracted from every MaxLen (quick runs)."""
 import sys, os, re
 HERE = os.path.dirname(os.path.abspath(__file__))
+OUT = os.environ.get("NA_CFG_OUT", HERE)      # where the cfg files go (scratch runs)
 
 def T(s):
     return "<<" + ",".join(str(b) for b in s.encode("latin-1")) + ">>"
@@ -132,7 +133,7 @@ def main():
         s += ("SPECIFICATION SpecP\nVIEW view\nCONSTANTS\n  OffsMod = 65536\n  Kind = \"%s\"\n  Atoms <- %s\n"
               "  Prefix <- %s\n  MaxLen = %d\n  Cfgs <- %s\n  Junk = 34\n  EmitOn = TRUE\nINVARIANTS %s\n"
               "CHECK_DEADLOCK FALSE\n") % (kind, atoms, pfx, maxlen, cfgs, inv)
-        open(os.path.join(HERE, "MC_NameAddr_%s.cfg" % name), "w").write(s)
+        open(os.path.join(OUT, "MC_NameAddr_%s.cfg" % name), "w").write(s)
         lens = [len(a) for a in ATOMS[atoms]]
         n0, n3 = NCFG[cfgs]
         print("%-10s MaxLen=%-3d wires~%d" % (name, maxlen, n0 * count(lens, L) + n3 * count(lens, L - 3)))
